@@ -236,11 +236,12 @@ PROPS["C02"] = dict(
          "0..2000, 10..310} x one of 9 dictated value patterns (all zero, rare non-zero, alternating sign, random sign and "
          "magnitude, zero with probability 0.6, position dependent, zero region, a few NaN/+-inf, constant) x scale "
          "10^-4..10^4, optionally a distribution; every iteration of the run is checked; non-trivial: zero and non-zero "
-         "evaluations, some N >= 2 and (for adaptive integrators) a non-uniform grid / unequal weights; distinct = "
-         "distinct description",
+         "evaluations, some N >= 2 and (for adaptive integrators) a non-uniform grid / unequal weights; 1/8 of the cases "
+         "instead check value / variance / error of results constructed with N up to 2^53 (around 2^32, N(N-1) around "
+         "2^63) against the documented formulas; distinct = distinct description",
     quick=dict(shards=8, cases=2500),
     thorough=dict(shards=16, cases=120000),
-    floors={"mixed-zero-nonzero": 0.25, "some-non-finite": 0.05, "N<=3": 0.2, "VEGAS": 0.2, "MULTI": 0.2},
+    floors={"mixed-zero-nonzero": 0.2, "some-non-finite": 0.04, "N<=3": 0.15, "VEGAS": 0.15, "MULTI": 0.15, "formula-layer": 0.05, "N>2^32": 0.02},
     level_text="independent recomputation from the call log of an instrumented integrand (f per call; weight, VEGAS bins, "
                "channel and coordinates only for non-zero f): number of evaluations = N = calls(); non_zero_calls and "
                "finite_calls exact; sum within the Kahan bound of the exact sum of f*w; sum_of_squares and the VEGAS "
@@ -395,6 +396,29 @@ PROPS["C19"] = dict(
     level_note="trusted: the library's refinement functions as the definition of 'the refinement' (their correctness is "
                "C07 / C08), the scripted engine, the 10-line inverse-CDF model and the harness's own channel maps",
     technique="rapidcheck over choice tapes; scripted engine + history invariant on recorded vs sampled state",
+    assumptions=ASSUME_COMMON,
+)
+
+PROPS["C20"] = dict(
+    units=[dict(name="c20", src="props/c20.cpp", deps=["lib/runners.hpp", "lib/pwc.hpp"], fuzz=dict(seconds=60))],
+    rule="2/3 of the cases: one generated run (PLAIN / VEGAS / multi-channel with 1..40 PWC channels; weight pattern equal / "
+         "one large / increasing / ties / disabled / two minimal and many distinct / generated; integrand ordinary, "
+         "identically zero, constant, NaN everywhere, zero-or-inf; 0..4 iterations; target 0 or 10^-2..1) executed under all "
+         "four callback modes with std::cout captured; 1/3: multi_channel_summary / weight_info on a checkpoint assembled "
+         "from a valid generated weight vector (1..40 channels, 1/3 of them >= 13); non-trivial: multi-channel with >= 3 "
+         "channels and unequal weights, or a degenerate integrand; distinct = distinct description; shim-MPI modes in C04",
+    quick=dict(shards=8, cases=800),
+    thorough=dict(shards=16, cases=40000),
+    floors={"run-layer": 0.4, "direct-layer": 0.2, "degenerate-integrand": 0.15, "many-channels": 0.03, "abbreviated-summary": 0.02,
+            "positive-target": 0.1},
+    level_text="differential across the four callback modes: the serialize() text of the returned checkpoint and of every "
+               "checkpoint handed to the callback is byte-identical, silent modes print nothing, writing modes leave a file "
+               "equal to that text, std::cout stays good and the printing code runs under ASan / UBSan; structural checks of "
+               "the weight summary: channels() is a weight-sorted permutation, every printed channel index is valid and "
+               "carries the printed weight within print precision, wmin <= w <= wmax, the minimal-weight list is exactly the "
+               "set with the minimal expected call count; exploration over generated configurations",
+    level_note="trusted: text identity as observable; the summary is parsed from its printed form (6 significant digits)",
+    technique="rapidcheck + libFuzzer over choice tapes; differential across callback modes + structural output checks under sanitizers",
     assumptions=ASSUME_COMMON,
 )
 
